@@ -1,5 +1,6 @@
 (* CredHistory.v — pipeline-level history theorems for C05 / C07: sequences of decode requests (any credentials,
-   any clients, any clock readings) and purge events over the replay cache as dec_process_msg uses it. *)
+   any retry values, any clients, any clock readings, with replies that are delivered or cannot be delivered) and purge
+   events over the replay cache as dec_process_msg uses it. *)
 From Coq Require Import List NArith ZArith Bool Lia.
 From Coq.Strings Require Import Byte.
 From RecordUpdate Require Import RecordSet.
@@ -12,7 +13,9 @@ Local Open Scope N_scope.
 Definition r_purge (now : N) (rs : rstate) : rstate := filter (fun k => now <=? snd k) rs.
 
 Inductive hev :=
-| HDecode (m : msg) (pu pg now : N)     (* a decode request that is answered (reply delivered) *)
+| HDecode (m : msg) (pu pg now : N)     (* a decode request that is answered (reply delivered); m carries the retry value *)
+| HDecodeLost (m : msg) (pu pg now : N) (* a decode request whose reply cannot be delivered (m_msg_send fails): the daemon
+                                           takes back the record this request added, if it added one *)
 | HPurge (now : N).                     (* the periodic purge firing at clock reading now *)
 
 Lemma r_mem_In k rs : In k rs -> r_mem k rs = true.
@@ -46,6 +49,7 @@ Notation dec_pre := (dec_pre hmac sha1 blk_dec zdecomp cf mem).
 Definition hstep (rs : rstate) (e : hev) : rstate * option msg :=
   match e with
   | HDecode m pu pg now => let '(r, rs', _) := dec_process rs m pu pg now in (rs', Some r)
+  | HDecodeLost m pu pg now => let '(_, rs', k) := dec_process rs m pu pg now in (dec_rollback rs' k, None)
   | HPurge now => (r_purge now rs, None)
   end.
 
@@ -63,6 +67,53 @@ Proof.
   - destruct (_ && _ && _); left; reflexivity.
   - right. exists m', k. repeat split; auto.
 Qed.
+
+(* a decode whose reply cannot be delivered leaves the cache EXACTLY as it found it: it takes back the record it added,
+   and nothing else - in particular not the record of an earlier decode that a retry was allowed to replay *)
+Lemma lost_decode_restores rs m pu pg now : fst (hstep rs (HDecodeLost m pu pg now)) = rs.
+Proof.
+  cbn [hstep]. rewrite (dec_process_factor hmac sha1 blk_dec zdecomp).
+  destruct (dec_pre m pu pg now) as [r0|[m' k]]; [reflexivity|].
+  destruct (r_mem k rs) eqn:M.
+  - destruct (_ && _ && _); reflexivity.
+  - cbn [fst]. apply rollback_insert. exact M.
+Qed.
+
+(* a delivered decode that the cache-independent part accepts leaves the credential's record in the cache, whatever
+   its retry value and whatever it was answered (success, allowed replay, replayed) *)
+Lemma delivered_decode_records rs m pu pg now m' k :
+  dec_pre m pu pg now = inr (m', k) -> In k (fst (hstep rs (HDecode m pu pg now))).
+Proof.
+  intros P. cbn [hstep]. rewrite (dec_process_factor hmac sha1 blk_dec zdecomp), P.
+  destruct (r_mem k rs) eqn:M.
+  - apply r_mem_true_In in M. destruct (_ && _ && _); exact M.
+  - left. reflexivity.
+Qed.
+
+(* no event removes a record before its expiry: decodes only add, undeliverable ones change nothing, a purge at clock p
+   keeps every record with p <= expiry *)
+Lemma hstep_keeps rs e k :
+  In k rs -> (forall p, e = HPurge p -> p <= snd k) -> In k (fst (hstep rs e)).
+Proof.
+  intros Hin Hp. destruct e as [m1 pu1 pg1 now1|m1 pu1 pg1 now1|p].
+  - cbn [hstep]. pose proof (decode_cache_effect rs m1 pu1 pg1 now1) as E.
+    destruct (dec_process rs m1 pu1 pg1 now1) as [[r rs'] kk]. cbn [fst].
+    destruct E as [->|(m2 & k2 & _ & _ & -> & _)]; [exact Hin|right; exact Hin].
+  - rewrite lost_decode_restores. exact Hin.
+  - cbn [hstep fst]. apply r_purge_keeps; [exact Hin|]. apply Hp. reflexivity.
+Qed.
+
+Lemma hrun_keeps h : forall rs k,
+  In k rs -> (forall p, In (HPurge p) h -> p <= snd k) -> In k (hrun rs h).
+Proof.
+  induction h as [|e h IH]; intros rs k Hin Hp; cbn [hrun]; [exact Hin|].
+  apply IH.
+  - apply hstep_keeps; [exact Hin|]. intros p ->. apply Hp. left. reflexivity.
+  - intros p Hq. apply Hp. right. exact Hq.
+Qed.
+
+Lemma hrun_app h1 h2 : forall rs, hrun rs (h1 ++ h2) = hrun (hrun rs h1) h2.
+Proof. induction h1 as [|e h1 IH]; intros rs; cbn [hrun app]; [reflexivity|apply IH]. Qed.
 
 (* the in-window check bounds the decode clock by the record's expiry *)
 Lemma dec_pre_accept_time m pu pg now m' k :
@@ -86,7 +137,8 @@ Qed.
 
 (* C07 at pipeline level: once the record of a credential is in the cache, every later first-attempt presentation
    that authenticates, is authorized and is inside the time window is answered 'replayed' and changes nothing —
-   across ANY history of other decodes (any credentials, clients, outcomes) and ANY number of purges, as long as
+   across ANY history of other decodes (any credentials, retry values, clients, outcomes, replies delivered or not)
+   and ANY number of purges, as long as
    the clock readings of the purges do not exceed the clock reading of that presentation (non-decreasing clock).
    In particular up to and including the last valid second. *)
 Theorem replayed_until_last_valid_second rs0 h m pu pg now m' k :
@@ -99,14 +151,7 @@ Proof.
   intros Hin Hp P R0. cbv zeta.
   destruct (dec_pre_accept_time _ _ _ _ _ _ P) as [Ht Hr].
   assert (K : In k (hrun rs0 h)).
-  { clear P Hr R0. revert rs0 Hin Hp. induction h as [|e h IH]; intros rs0 Hin Hp; cbn [hrun]; [exact Hin|].
-    apply IH.
-    - destruct e as [m1 pu1 pg1 now1|p]; cbn [hstep fst].
-      + pose proof (decode_cache_effect rs0 m1 pu1 pg1 now1) as E.
-        destruct (dec_process rs0 m1 pu1 pg1 now1) as [[r rs'] kk]. cbn [fst].
-        destruct E as [->|(m2 & k2 & _ & _ & -> & _)]; [exact Hin|right; exact Hin].
-      + apply r_purge_keeps; [exact Hin|]. specialize (Hp p (or_introl eq_refl)). lia.
-    - intros p Hq. apply Hp. right. exact Hq. }
+  { apply hrun_keeps; [exact Hin|]. intros p Hq. specialize (Hp p Hq). lia. }
   rewrite (dec_process_factor hmac sha1 blk_dec zdecomp), P, (r_mem_In _ _ K), Hr, R0.
   replace (0 <? 0) with false by reflexivity. rewrite andb_false_r. reflexivity.
 Qed.
@@ -132,4 +177,103 @@ Proof.
   destruct (r_mem k rs) eqn:M; [apply r_mem_true_In in M; contradiction|reflexivity].
 Qed.
 
+(* C05, first attempts: after a DELIVERED decode of credential X that the cache-independent part accepted (whatever
+   its retry value; in particular after a delivered success), every later request for X with retry = 0 that is inside
+   the time window is answered 'replayed' and changes nothing - whatever happened before (h1), and whatever came in
+   between (h2): decodes of any credentials with any retry values 0..255 and beyond, from any clients, at any clock
+   readings, with replies delivered or undeliverable, and purge ticks at clock readings not beyond the final request's
+   (a non-decreasing clock).  Hence at most one retry-0 request per credential with a delivered reply ends in success
+   while the record can still be present. *)
+Theorem first_attempts_at_most_once rs0 h1 h2 mA puA pgA nowA mA' m pu pg now m' k :
+  dec_pre mA puA pgA nowA = inr (mA', k) ->
+  (forall p, In (HPurge p) h2 -> p <= u32 now) ->
+  dec_pre m pu pg now = inr (m', k) -> m_retry m = 0 ->
+  let rs := hrun rs0 (h1 ++ HDecode mA puA pgA nowA :: h2) in
+  dec_process rs m pu pg now = (dec_finish (set_err m' e_cred_replayed None), rs, None).
+Proof.
+  intros PA Hp P R0. cbv zeta. rewrite hrun_app. cbn [hrun].
+  apply (replayed_until_last_valid_second _ h2 m pu pg now m' k); auto.
+  apply delivered_decode_records with (m' := mA'). exact PA.
+Qed.
+
+(* two delivered retry-0 requests for one credential in one history never both succeed *)
+Corollary two_first_attempts_not_both_ok rs0 h1 h2 mA puA pgA nowA mA' m pu pg now m' k :
+  dec_pre mA puA pgA nowA = inr (mA', k) ->
+  (forall p, In (HPurge p) h2 -> p <= u32 now) ->
+  dec_pre m pu pg now = inr (m', k) -> m_retry m = 0 -> m_err m = e_success ->
+  let rs := hrun rs0 (h1 ++ HDecode mA puA pgA nowA :: h2) in
+  m_err (fst (fst (dec_process rs m pu pg now))) = e_cred_replayed.
+Proof.
+  intros PA Hp P R0 E0. cbv zeta. rewrite (first_attempts_at_most_once _ _ _ _ _ _ _ _ _ _ _ _ _ _ PA Hp P R0).
+  cbn [fst]. unfold dec_finish.
+  assert (Em : m_err m' = e_success).
+  { unfold RetryModel.dec_pre in P.
+    destruct (m_data_len m =? 0); [discriminate|].
+    destruct (c_retry_attempts <? _); [discriminate|].
+    destruct (CredModel.dec_parse _ _ _ _ _ _) as [e|[m2 tag]] eqn:Q; [discriminate|].
+    destruct (negb _); [discriminate|].
+    destruct (dec_time cf (m_time0 m2) (m_ttl m2) (m_time1 m2)) as [tv ttl'].
+    destruct tv; try discriminate. inversion P; subst; clear P.
+    destruct (dec_parse_frame hmac sha1 blk_dec zdecomp _ _ _ _ Q) as (He & _). cbn in He. cbn. congruence. }
+  rewrite (set_err_code _ _ _ Em) by discriminate.
+  change (negb (e_cred_replayed =? e_success) && negb (soft_err e_cred_replayed)) with false. cbn iota.
+  apply set_err_code; [exact Em|discriminate].
+Qed.
+
 End H.
+
+(* ---- the roll-back rule before the repair (3dbe0fd): a retry that was allowed to replay an existing record also
+        "owned" it, so its undeliverable reply removed the record of the earlier DELIVERED decode.  Defined here, not
+        in the model: the statement above is false for it. ---- *)
+Section Old.
+Variable hmac : N -> bytes -> bytes -> bytes.
+Variable sha1 : bytes -> bytes.
+Variable blk_dec : N -> bytes -> bytes -> bytes.
+Variable zdecomp : N -> bytes -> N -> option bytes.
+Variable cf : conf.
+Variable mem : N -> N -> bool.
+
+Definition dec_process_old (rs : rstate) (m : msg) (pu pg now : N) : msg * rstate * option rkey :=
+  match dec_pre hmac sha1 blk_dec zdecomp cf mem m pu pg now with
+  | inl r => (r, rs, None)
+  | inr (m', k) =>
+      if r_mem k rs then
+        if cf_socket_retry cf && (0 <? m_retry m') && (m_retry m' <=? c_retry_attempts)
+        then (m', rs, Some k)                       (* pre-repair: rc = 0 alone decided the roll-back *)
+        else (dec_finish (set_err m' e_cred_replayed None), rs, None)
+      else (m', k :: rs, Some k)
+  end.
+
+Definition hstep_old (rs : rstate) (e : hev) : rstate :=
+  match e with
+  | HDecode m pu pg now => let '(_, rs', _) := dec_process_old rs m pu pg now in rs'
+  | HDecodeLost m pu pg now => let '(_, rs', k) := dec_process_old rs m pu pg now in dec_rollback rs' k
+  | HPurge now => r_purge now rs
+  end.
+Fixpoint hrun_old (rs : rstate) (h : list hev) : rstate :=
+  match h with [] => rs | e :: r => hrun_old (hstep_old rs e) r end.
+End Old.
+
+(* a concrete 3-event history (toy primitives, computed inside Coq): A = first attempt, delivered, success; B = the same
+   credential with retry = 1, reply undeliverable; C = first attempt again, inside the window, no purge at all.  All
+   premises of first_attempts_at_most_once hold (h1 = [], h2 = [B]); under the old rule C succeeds a second time, under
+   the model's (repaired) rule it is answered 'replayed'. *)
+Theorem old_unplay_refuted :
+  let pre := dec_pre toy_hmac (fun x => x) toy_blk (fun _ x _ => Some x) cf_std (fun _ _ => false) in
+  let old := dec_process_old toy_hmac (fun x => x) toy_blk (fun _ x _ => Some x) cf_std (fun _ _ => false) in
+  let new := dec_process toy_hmac (fun x => x) toy_blk (fun _ x _ => Some x) cf_std (fun _ _ => false) in
+  let A := HDecode (req toy_cred 0) 7 8 5010 in
+  let B := HDecodeLost (req toy_cred 1) 7 8 5011 in
+  let C := req toy_cred 0 in
+  (exists mA' m' k, pre (req toy_cred 0) 7 8 5010 = inr (mA', k) /\ pre C 7 8 5012 = inr (m', k)) /\
+  m_retry C = 0 /\ (forall p, In (HPurge p) [B] -> p <= u32 5012) /\
+  (let rs := hrun_old toy_hmac (fun x => x) toy_blk (fun _ x _ => Some x) cf_std (fun _ _ => false) [] [A; B] in
+   m_err (fst (fst (old rs C 7 8 5012))) = e_success /\ rs = []) /\
+  (let rs := hrun toy_hmac (fun x => x) toy_blk (fun _ x _ => Some x) cf_std (fun _ _ => false) [] [A; B] in
+   m_err (fst (fst (new rs C 7 8 5012))) = e_cred_replayed /\ length rs = 1%nat).
+Proof.
+  cbv zeta. split; [|split; [reflexivity|split]].
+  - eexists _, _, _. split; vm_compute; reflexivity.
+  - intros p [H|[]]. discriminate H.
+  - split; vm_compute; split; reflexivity.
+Qed.
